@@ -107,6 +107,62 @@ Proof.
   apply IH; [discriminate|]. intros x Hx. apply Hin. right. assumption.
 Qed.
 
+(* ---- the same loop written over block indices (sorted by key=aligned.__getitem__, heap[0] + heapreplace) ---- *)
+Definition loop_body_idx (aligned : list Z) : (list (Z * Z) * list (Z * Z)) -> Z -> result (list (Z * Z) * list (Z * Z)) :=
+  fun '(heap, ranks) index =>
+    bind (py_index aligned index) (fun a =>
+    bind (pq_peek heap) (fun least => let '(load, rank) := least in
+    bind (pq_replace heap (load + a, rank)) (fun heap =>
+    bind (py_setitem ranks index (a, rank)) (fun ranks => Ret (heap, ranks))))).
+
+Lemma loop_idx_eq aligned : forall (ord : list (Z * Z)) st,
+  (forall p, In p ord -> py_index aligned (fst p) = Ret (snd p)) ->
+  py_for (loop_body_idx aligned) (map fst ord) st = py_for loop_body ord st.
+Proof.
+  induction ord as [|[i a] ord IH]; intros [heap ranks] H; [reflexivity|]. cbn [map py_for fst].
+  assert (Hb : loop_body_idx aligned (heap, ranks) i = loop_body (heap, ranks) (i, a)).
+  { pose proof (H (i, a) (or_introl eq_refl)) as Hi. cbn [fst snd] in Hi.
+    unfold loop_body_idx, loop_body. rewrite Hi. cbn [bind].
+    unfold pq_peek, pq_replace, pq_pop. destruct (pq_pop_min heap) as [[[l g] r]|]; reflexivity. }
+  rewrite Hb. destruct (loop_body (heap, ranks) (i, a)) as [st'| |]; cbn [bind]; try reflexivity.
+  apply IH. intros p Hp. apply H. right. assumption.
+Qed.
+
+Lemma mapM_index_enumerate (l : list Z) : forall pre : list Z,
+  py_mapM (fun i => bind (py_index (pre ++ l) i) (fun k => Ret (i, k))) (map (fun k => Z.of_nat (length pre + k)) (seq 0 (length l)))
+  = Ret (combine (map (fun k => Z.of_nat (length pre + k)) (seq 0 (length l))) l).
+Proof.
+  induction l as [|x l IH]; intro pre; [reflexivity|]. cbn [length seq map py_mapM combine].
+  rewrite Nat.add_0_r, py_index_nat, nth_error_app2, Nat.sub_diag by lia. cbn [nth_error bind].
+  specialize (IH (pre ++ [x])). rewrite <- app_assoc in IH. cbn [app] in IH. rewrite app_length in IH. cbn [length] in IH.
+  rewrite <- seq_shift, !map_map.
+  assert (E : map (fun k => Z.of_nat (length pre + 1 + k)) (seq 0 (length l)) = map (fun k => Z.of_nat (length pre + S k)) (seq 0 (length l)))
+    by (apply map_ext; intro k; f_equal; lia).
+  rewrite E in IH. rewrite IH. reflexivity.
+Qed.
+
+Lemma sorted_getitem sizes :
+  py_sorted_desc_getitem (map align64 sizes) (py_range 0 (py_len (map align64 sizes)))
+  = Ret (map fst (map zi (sort_desc (indexed sizes)))).
+Proof.
+  unfold py_sorted_desc_getitem.
+  assert (Hm : py_mapM (fun i => bind (py_index (map align64 sizes) i) (fun k => Ret (i, k))) (py_range 0 (py_len (map align64 sizes)))
+               = Ret (py_enumerate (map align64 sizes))).
+  { unfold py_enumerate, py_range, py_len. rewrite Z.sub_0_r, Nat2Z.id.
+    assert (Er : map (fun k => 0 + Z.of_nat k) (seq 0 (length (map align64 sizes)))
+                 = map (fun k => Z.of_nat (length (@nil Z) + k)) (seq 0 (length (map align64 sizes))))
+      by (apply map_ext; intro k; cbn [length]; lia).
+    rewrite Er. exact (mapM_index_enumerate (map align64 sizes) []). }
+  rewrite Hm. cbn [bind]. rewrite enumerate_indexed, sorted_zi. reflexivity.
+Qed.
+
+Lemma indexed_getitem sizes p : In p (map zi (sort_desc (indexed sizes))) -> py_index (map align64 sizes) (fst p) = Ret (snd p).
+Proof.
+  intro H. apply in_map_iff in H as [[i q] [<- H]]. apply (Permutation_in _ (sort_desc_perm _)) in H. apply indexed_in in H as [Hi ->].
+  unfold zi. cbn [fst snd]. rewrite py_index_nat, (nth_error_nth' _ 0) by (rewrite map_length; assumption).
+  change 0 with (align64 (-63)) at 1. rewrite map_nth. f_equal. f_equal. apply nth_indep. assumption.
+Qed.
+
 (* every block gets an entry, so the two defaults ((-1,-1) in the code, (-1,0) in the model) are never seen *)
 Lemma greedy_fst : forall order h acc, h <> [] -> map fst (greedy order h acc) = rev order ++ map fst acc.
 Proof.
@@ -135,8 +191,14 @@ Proof.
   intros sizes gs. unfold GenC14.ddp_distribute_buffer_sizes. cbv zeta.
   rewrite (py_mapM_ret _ align64).
   2:{ intro x. unfold py_floordiv. cbn [Z.eqb]. rewrite bind_ret. unfold align64. do 3 f_equal. lia. }
-  rewrite bind_ret, enumerate_indexed, sorted_zi, init_heap_zh. unfold pq_heapify, py_len. rewrite list_mul_repeat.
-  match goal with |- context[py_for ?b _ _] => change b with loop_body end.
+  rewrite bind_ret, init_heap_zh. unfold pq_heapify.
+  (* the loop over (index, size) pairs with heappop/heappush, or over indices with heap[0]/heapreplace *)
+  first [ rewrite enumerate_indexed, sorted_zi;
+          match goal with |- context[py_for ?b _ _] => change b with loop_body end
+        | rewrite sorted_getitem, bind_ret;
+          match goal with |- context[py_for ?b _ _] => change b with (loop_body_idx (map align64 sizes)) end;
+          rewrite loop_idx_eq by (apply indexed_getitem) ].
+  unfold py_len. rewrite list_mul_repeat.
   assert (Hrep : repeat (-1, -1) (length sizes) = map (lookupZ []) (seq 0 (length sizes))).
   { generalize 0%nat. induction (length sizes) as [|n IH]; intro s; [reflexivity|]. cbn [repeat seq map]. rewrite (IH (S s)). reflexivity. }
   rewrite Hrep. clear Hrep.
